@@ -240,7 +240,17 @@ func replayLine(cs caseSpec) string {
 	for _, v := range cs.vars {
 		number = number || hasNumber(v)
 	}
-	fc := fileCase{Family: cs.family, Text: cs.text, Number: number, UseTZ: cs.useTZ, TZ: cs.tzOff, Cancel: cs.cancel}
+	fc := fileCase{Family: cs.family, Text: cs.text, Number: number, UseTZ: cs.useTZ, TZ: cs.tzOff, Cancel: cs.cancel, Group: cs.group, Role: cs.role}
+	numDoc := hasNumber(cs.doc)
+	fc.NumDoc = &numDoc
+	numVars := []string{}
+	for k, v := range cs.vars {
+		if hasNumber(v) {
+			numVars = append(numVars, k)
+		}
+	}
+	sort.Strings(numVars)
+	fc.NumVars = &numVars
 	if b, err := json.Marshal(cs.doc); err == nil {
 		fc.Doc = string(b)
 	}
